@@ -1,5 +1,6 @@
 import Txtpp.Lemmas.MachineFacts
 import Txtpp.Model.Pp
+import Txtpp.Lemmas.TrailingPass
 /-!
 # Property C13 — the trailing-newline option controls one final line ending and nothing else
 -/
@@ -50,5 +51,20 @@ theorem trailing_text_last {D σ : Type} (S : Sem D σ) (s0 : σ) (ls : List (Li
     machine S true s0 (ls ++ [l]) = some (s, out ++ S.le) ∧
     ∃ pre l', out = pre ++ l' ∧ ∃ s', (S.text s' l).2 = some l' :=
   Refine.trailing_text_last S s0 ls l hd hcont htext s out h
+
+/-- **One `preprocess` call on the file system (build mode)**: with the option on or off the outcome
+is the same, every path other than the output path holds the same bytes afterwards (temp files,
+sources, everything else), and the output text with the option on is the text with the option off, or
+that text followed by exactly one line ending (the source's). -/
+theorem option_changes_only_the_final_line_ending_of_the_output (cfg : Cfg) (hb : cfg.mode = .build) (fs : FS) (src : Path)
+    (first : Bool) :
+    (runPass (cfg.withTrailing false) fs src first).1 = (runPass (cfg.withTrailing true) fs src first).1 ∧
+    (∀ q, outputPath src ≠ some q →
+      (runPass (cfg.withTrailing false) fs src first).2.file? q = (runPass (cfg.withTrailing true) fs src first).2.file? q) ∧
+    ((runPass (cfg.withTrailing false) fs src first).1 = .ok → ∃ o out le, outputPath src = some o ∧
+      (runPass (cfg.withTrailing false) fs src first).2.file? o = some (encodeUtf8 out) ∧
+      ((runPass (cfg.withTrailing true) fs src first).2.file? o = some (encodeUtf8 out) ∨
+       (runPass (cfg.withTrailing true) fs src first).2.file? o = some (encodeUtf8 (out ++ le)))) :=
+  runPass_trailing cfg hb fs src first
 
 end C13
